@@ -1,7 +1,7 @@
 SPECIFICATION Spec
 CONSTANTS
-  WorldIx = 28
-  MaxLen = 5
+  WorldIx = 8
+  MaxLen = 4
 INVARIANT GatedImpliesFeasible
 INVARIANT Exactness
 CHECK_DEADLOCK FALSE
